@@ -104,11 +104,12 @@ def run_junit(seed, tier, replay=None):
         except ValueError: return x
     for m in mism:
         if m["req"].startswith("xmltext "):
-            raw = uhx(m["req"].split(" ")[1])
+            f = m["req"].split(" ")
+            raw = f"{f[1]}: stdout {uhx(f[2])!r} stderr {uhx(f[4])!r}"
             got = m["impl"]
-            if got.startswith("xml-error:"): what = f"the JUnit report is not well-formed XML ({uhx(got.split(':', 1)[1])[:200]}) when a failing test's stored output is {raw!r}"
-            elif got.endswith(";!non-xml-char"): what = f"the JUnit report holds a character XML 1.0 forbids when a failing test's stored output is {raw!r}"
-            else: what = f"stored output in the JUnit report differs from the test's output minus the characters XML forbids: output {raw!r}, report has (system-out;system-err) {';'.join(repr(uhx(x)) for x in got.split(';'))}, expected {uhx(m['model'].split(';')[0])!r}"
+            if got.startswith("xml-error:"): what = f"the JUnit report is not well-formed XML ({uhx(got.split(':', 1)[1])[:200]}) when a failing test's stored output is {raw}"
+            elif got.endswith(";!non-xml-char"): what = f"the JUnit report holds a character XML 1.0 forbids when a failing test's stored output is {raw}"
+            else: what = f"stored output in the JUnit report is not the test's output in the right element minus the characters XML forbids: captured {raw}, report has (system-out;system-err) {';'.join(repr(uhx(x)) for x in got.split(';'))}, expected {';'.join(repr(uhx(x)) for x in m['model'].split(';'))}"
             violations.append({"what": what, "payload": {"stream": m["origin"][:2], "line_index": m["origin"][2], "request": m["req"], "impl": m["impl"], "spec": m["model"]}, "kind": "junit-xmltext"})
             continue
         ip, mp = m["impl"].split(" ## "), m["model"].split(" ## ")
@@ -117,9 +118,9 @@ def run_junit(seed, tier, replay=None):
             violations.append({"what": describe_junit(m["req"], m["impl"], m["model"]), "payload": {"stream": m["origin"][:2], "line_index": m["origin"][2], "request": m["req"], "impl": m["impl"], "spec": m["model"]}, "kind": "junit-model"})
         else:
             detail.append({"stream": m["origin"][:2], "line_index": m["origin"][2], "request": m["req"], "impl": m["impl"], "model": m["model"], "note": "only the `type` attribute texts differ"})
-    nt = {q for _, q, i in items if (q.startswith("junit ") and q.count("T:") + q.count("S:") >= 2) or (q.startswith("xmltext ") and i.split(";")[0] != q.split(" ")[1])}
+    nt = {q for _, q, i in items if (q.startswith("junit ") and q.count("T:") + q.count("S:") >= 2) or (q.startswith("xmltext ") and i.split(";")[0] != q.split(" ")[2])}
     return {"evaluations": len(items), "distinct_nontrivial": len(nt),
-            "rule": "p_junit: event lists (0-9 events: finished tests of 4 binaries with 1-4 attempts whose non-final attempts failed, finished setup scripts, other events; store-success/failure-output drawn per event) through the real Reporter; the JUnit file is parsed back (suites, counters, cases, status elements, reruns with the attempt each carries, stored output attributed by marker), the Summary line is read from the display reporter and RunStats folded by the real on_test_finished; all three compared with Model/Junit; then as many `xmltext` cases: a failing test whose stored stdout and stderr are a hostile text (0-14 pieces drawn from markup characters, C0 and C1 controls, ANSI escape sequences, U+FFFE/U+FFFF and other edge code points, invalid UTF-8) through the real Reporter, the report parsed back, every character of the document checked to be an XML Char, and the stored text compared with Model/XmlText.xmlString (the ANSI stripper's result on that text handed to the model as a table); non-trivial = at least two finished units, or a hostile text the filters change",
+            "rule": "p_junit: event lists (0-9 events: finished tests of 4 binaries with 1-4 attempts whose non-final attempts failed, finished setup scripts, other events; store-success/failure-output drawn per event) through the real Reporter; the JUnit file is parsed back (suites, counters, cases, status elements, reruns with the attempt each carries, stored output attributed by marker), the Summary line is read from the display reporter and RunStats folded by the real on_test_finished; all three compared with Model/Junit; then as many `xmltext` cases: a failing test whose captured output (split with both / either / no stream, combined, or a start error) is hostile text (0-14 pieces per stream drawn from markup characters, C0 and C1 controls, ANSI escape sequences, U+FFFE/U+FFFF and other edge code points, invalid UTF-8) through the real Reporter, the report parsed back, every character of the document checked to be an XML Char, and the stored text compared with Model/XmlText.xmlString (the ANSI stripper's result on that text handed to the model as a table); non-trivial = at least two finished units, or a hostile text the filters change",
             "samples": [f"{q[:200]}  =>  {i[:200]}" for (_, q, i) in items[:3] + [x for x in items if x[1].startswith("xmltext ")][3:5]], "traces": len(items), "dist": {"junit:" + k: v for k, v in r.dist.items()},
             "violations": violations, "broken": r.broken, "impl_failures": r.impl_failures, "detail_mismatches": detail}
 
